@@ -41,20 +41,54 @@ class Ref:
 
 
 class Module:
+    """One source file.  Parsing and indexing are lazy: a check only pays for the modules
+    it actually consults."""
+
     def __init__(self, name: str, relpath: str, src: str, is_pkg: bool):
         self.name = name
         self.relpath = relpath
         self.src = src
         self.is_pkg = is_pkg
-        try:
-            self.tree = ast.parse(src, filename=relpath)
-        except SyntaxError as ex:  # a variant that does not compile is not analysed
-            raise AnalysisError(f'{relpath}: does not parse: {ex}') from ex
+        self._tree = None
         self._lines = None
-        self.imports: dict[str, tuple[str, str | None]] = {}
-        self.defs: dict[str, ast.AST] = {}
-        self.assigns: dict[str, list[ast.AST]] = {}
-        self._index()
+        self._imports = None
+        self._defs = None
+        self._assigns = None
+
+    @property
+    def raw_tree(self) -> ast.Module:
+        """Parsed module without parent links (enough for the constant folder)."""
+        if self._tree is None:
+            try:
+                self._tree = ast.parse(self.src, filename=self.relpath)
+            except SyntaxError as ex:  # a variant that does not compile is not analysed
+                raise AnalysisError(f'{self.relpath}: does not parse: {ex}') from ex
+        return self._tree
+
+    @property
+    def tree(self) -> ast.Module:
+        """Parsed and indexed module (every node has a ``_parent`` link)."""
+        if self._imports is None:
+            self._index()
+        return self._tree
+
+    @property
+    def imports(self) -> dict:
+        if self._imports is None:
+            self._index()
+        return self._imports
+
+    @property
+    def defs(self) -> dict:
+        if self._defs is None:
+            self._index()
+        return self._defs
+
+    @property
+    def assigns(self) -> dict:
+        if self._assigns is None:
+            self._index()
+        return self._assigns
 
     # ------------------------------------------------------------------
     def _abs_module(self, node: ast.ImportFrom) -> str | None:
@@ -88,10 +122,11 @@ class Module:
         return out
 
     def _index(self) -> None:
-        for n in ast.walk(self.tree):
+        self._imports, self._defs, self._assigns = {}, {}, {}
+        for n in ast.walk(self.raw_tree):
             for c in ast.iter_child_nodes(n):
                 c._parent = n  # type: ignore[attr-defined]
-        self.tree._parent = None  # type: ignore[attr-defined]
+        self._tree._parent = None  # type: ignore[attr-defined]
 
         def top(stmts):
             for n in stmts:
@@ -111,7 +146,7 @@ class Module:
                         top(getattr(n, fld, []) or [])
                     for h in getattr(n, 'handlers', []) or []:
                         top(h.body)
-        top(self.tree.body)
+        top(self._tree.body)
 
     # ------------------------------------------------------------------
     @property
